@@ -74,6 +74,10 @@ func (p *packetizer) Packetize(payload []byte, samples uint32) []*Packet {
 	if p.extensionNumbers.AbsSendTime != 0 {
 		// one-byte extension header (4) + id/len (1) + abs-send-time (3)
 		headerSize += 8
+		if p.extensionNumbers.AbsSendTime > 14 {
+			// an id above 14 needs the two-byte form: header (4) + id, len (2) + abs-send-time (3), padded to 12
+			headerSize += 4
+		}
 	}
 	payloads := p.Payloader.Payload(p.MTU-headerSize, payload)
 	packets := make([]*Packet, len(payloads))
